@@ -413,3 +413,192 @@ theorem surplusVehicle_below (ops : BatOps α B) (law : BatLaw ops) (env : Strat
           · simp only [Except.ok.injEq, Prod.mk.injEq] at h; obtain ⟨rfl, _⟩ := h; exact ⟨hinv, hcm⟩
 
 end SpiceEv
+
+namespace SpiceEv
+variable {α B : Type} [Field α] [LinearOrder α] [IsStrictOrderedRing α]
+
+theorem distributeSurplus_below (ops : BatOps α B) (law : BatLaw ops) (env : StratEnv α)
+    (heps : 0 ≤ env.eps) (S : String → α) (hS : ∀ k, 0 ≤ S k) (w w' : World α B)
+    (cmds' : List (String × α)) (hcm : ∀ g ∈ w.gcs, 0 ≤ g.curMax) (hinv : Below S w)
+    (h : distributeSurplus ops env w = .ok (w', cmds')) :
+    Below S w' ∧ (∀ g ∈ w'.gcs, 0 ≤ g.curMax) := by
+  unfold distributeSurplus at h
+  simp only [bind, Except.bind] at h
+  split at h
+  · cases h
+  · rename_i cheap _
+    -- generalise the fold
+    have key : ∀ (vs : List (VehicleS α B)) (st st' : World α B × List (String × α)),
+        Below S st.1 → (∀ g ∈ st.1.gcs, 0 ≤ g.curMax) →
+        vs.foldlM (fun (st : World α B × List (String × α)) v0 =>
+          match st.1.vehicle? v0.id with
+          | none => Except.ok st
+          | some v => surplusVehicle ops env cheap st.1 st.2 v) st = .ok st' →
+        Below S st'.1 ∧ (∀ g ∈ st'.1.gcs, 0 ≤ g.curMax) := by
+      intro vs
+      induction vs with
+      | nil =>
+        intro st st' h1 h2 h3
+        simp only [List.foldlM_nil, pure, Except.pure, Except.ok.injEq] at h3
+        subst h3; exact ⟨h1, h2⟩
+      | cons v0 rest ih =>
+        intro st st' h1 h2 h3
+        simp only [List.foldlM_cons, bind, Except.bind] at h3
+        split at h3
+        · cases h3
+        · rename_i st1 hst1
+          split at hst1
+          · simp only [Except.ok.injEq] at hst1
+            subst hst1
+            exact ih _ _ h1 h2 h3
+          · rename_i v hv
+            obtain ⟨w1, c1⟩ := st1
+            obtain ⟨hb, hc⟩ := surplusVehicle_below ops law env heps S hS cheap st.1 st.2 v w1 c1 h2 h1 hst1
+            exact ih _ _ hb hc h3
+    exact key w.vehicles (w, []) (w', cmds') hinv hcm h
+
+theorem alGet_zero_of_all_zero (l : List (String × α)) (h : ∀ kv ∈ l, kv.2 = 0) (k : String) :
+    availOf l k = 0 := by
+  unfold availOf
+  induction l with
+  | nil => simp [alGet]
+  | cons x xs ih =>
+    obtain ⟨xk, xv⟩ := x
+    have hx : xv = 0 := h (xk, xv) (by simp)
+    by_cases hk : (xk == k) = true
+    · simp [alGet, hk, hx]
+    · have hk' : (xk == k) = false := by simpa using hk
+      simp only [alGet, hk', Bool.false_eq_true, if_false]
+      exact ih (fun kv hkv => h kv (List.mem_cons_of_mem _ hkv))
+
+theorem availBatPower_nobat (ops : BatOps α B) (w : World α B) (hb : w.batteries = []) :
+    availBatPower ops w = .ok (w.gcs.map (fun g => (g.id, (0 : α)))) := by
+  unfold availBatPower
+  rw [hb]
+  simp only [List.foldlM_nil, pure, Except.pure, bind, Except.bind]
+  induction w.gcs with
+  | nil => rfl
+  | cons g gs ih =>
+    simp only [List.mapM_cons, bind, Except.bind, pure, Except.pure, List.map_cons] at ih ⊢
+    rw [ih]
+
+theorem updateBatteries_nobat (ops : BatOps α B) (env : StratEnv α) (w w' : World α B)
+    (hb : w.batteries = []) (h : updateBatteries ops env w = .ok w') : w' = w := by
+  unfold updateBatteries at h
+  simp only [bind, Except.bind] at h
+  split at h
+  · cases h
+  · rw [hb] at h
+    simp only [List.foldlM_nil, pure, Except.pure, Except.ok.injEq] at h
+    exact h.symm
+
+@[simp] theorem resetStations_gcs (w : World α B) : (resetStations w).gcs = w.gcs := rfl
+@[simp] theorem resetStations_batteries (w : World α B) : (resetStations w).batteries = w.batteries := rfl
+
+end SpiceEv
+
+namespace SpiceEv
+variable {α B : Type} [Field α] [LinearOrder α] [IsStrictOrderedRing α]
+
+@[simp] theorem setVehicle_batteries (w : World α B) (v : VehicleS α B) :
+    (w.setVehicle v).batteries = w.batteries := rfl
+@[simp] theorem setStation_batteries (w : World α B) (s : StationS α) :
+    (w.setStation s).batteries = w.batteries := rfl
+@[simp] theorem setGc_batteries (w : World α B) (g : GcS α) : (w.setGc g).batteries = w.batteries := rfl
+
+theorem allocVehicle_batteries (rule : Rule) (ops : BatOps α B) (env : StratEnv α)
+    (st st' : World α B × List (String × α) × List (String × α)) (vid : String)
+    (h : allocVehicle rule ops env st vid = .ok st') : st'.1.batteries = st.1.batteries := by
+  unfold allocVehicle at h
+  split at h
+  · cases h
+  · split at h
+    · simp only [Except.ok.injEq] at h; subst h; rfl
+    · split at h
+      · cases h
+      · split at h
+        · cases h
+        · simp only [bind, Except.bind] at h
+          split at h
+          · cases h
+          · split at h
+            · cases h
+            · split at h
+              · cases h
+              · simp only [Except.ok.injEq] at h
+                subst h
+                simp
+
+theorem allocFold_batteries (rule : Rule) (ops : BatOps α B) (env : StratEnv α) (ids : List String)
+    (st st' : World α B × List (String × α) × List (String × α))
+    (h : ids.foldlM (allocVehicle rule ops env) st = .ok st') : st'.1.batteries = st.1.batteries := by
+  induction ids generalizing st with
+  | nil =>
+    simp only [List.foldlM_nil, pure, Except.pure, Except.ok.injEq] at h
+    subst h; rfl
+  | cons id rest ih =>
+    simp only [List.foldlM_cons, bind, Except.bind] at h
+    split at h
+    · cases h
+    · rename_i st1 hs
+      rw [ih st1 h, allocVehicle_batteries rule ops env st st1 id hs]
+
+theorem surplusVehicle_batteries (ops : BatOps α B) (env : StratEnv α) (cheap : List (String × Bool))
+    (w w' : World α B) (cmds cmds' : List (String × α)) (v : VehicleS α B)
+    (h : surplusVehicle ops env cheap w cmds v = .ok (w', cmds')) : w'.batteries = w.batteries := by
+  unfold surplusVehicle at h
+  split at h
+  · simp only [Except.ok.injEq, Prod.mk.injEq] at h; obtain ⟨rfl, _⟩ := h; rfl
+  · split at h
+    · cases h
+    · split at h
+      · cases h
+      · simp only at h
+        split at h
+        · simp only [bind, Except.bind] at h
+          split at h
+          · cases h
+          · simp only [Except.ok.injEq, Prod.mk.injEq] at h; obtain ⟨rfl, _⟩ := h; simp
+        · split at h
+          · simp only [bind, Except.bind] at h
+            split at h
+            · cases h
+            · simp only [Except.ok.injEq, Prod.mk.injEq] at h; obtain ⟨rfl, _⟩ := h; simp
+          · simp only [Except.ok.injEq, Prod.mk.injEq] at h; obtain ⟨rfl, _⟩ := h; rfl
+
+theorem distributeSurplus_batteries (ops : BatOps α B) (env : StratEnv α) (w w' : World α B)
+    (cmds' : List (String × α)) (h : distributeSurplus ops env w = .ok (w', cmds')) :
+    w'.batteries = w.batteries := by
+  unfold distributeSurplus at h
+  simp only [bind, Except.bind] at h
+  split at h
+  · cases h
+  · rename_i cheap _
+    have key : ∀ (vs : List (VehicleS α B)) (st st' : World α B × List (String × α)),
+        vs.foldlM (fun (st : World α B × List (String × α)) v0 =>
+          match st.1.vehicle? v0.id with
+          | none => Except.ok st
+          | some v => surplusVehicle ops env cheap st.1 st.2 v) st = .ok st' →
+        st'.1.batteries = st.1.batteries := by
+      intro vs
+      induction vs with
+      | nil =>
+        intro st st' h3
+        simp only [List.foldlM_nil, pure, Except.pure, Except.ok.injEq] at h3
+        subst h3; rfl
+      | cons v0 rest ih =>
+        intro st st' h3
+        simp only [List.foldlM_cons, bind, Except.bind] at h3
+        split at h3
+        · cases h3
+        · rename_i st1 hst1
+          split at hst1
+          · simp only [Except.ok.injEq] at hst1
+            subst hst1
+            exact ih _ _ h3
+          · obtain ⟨w1, c1⟩ := st1
+            rw [ih _ _ h3]
+            exact surplusVehicle_batteries ops env cheap st.1 w1 st.2 c1 _ hst1
+    exact key w.vehicles (w, []) (w', cmds') h
+
+end SpiceEv
